@@ -166,7 +166,22 @@ impl Prop {
             Prop::C06 => ge::c06_base(n, start, len).into_iter().map(|(c, k)| Item { case: c, kinds: k }).collect(),
             Prop::C07 => plain(ge::c07(n, start, len)),
             Prop::C08 => plain(ge::c08(n, start, len)),
-            Prop::C09 => plain(ge::c09(n, start, len, End::Drop)),
+            Prop::C09 => {
+                let mut v = plain(ge::c09(n, start, len, End::Drop));
+                // a panic in a closure handed to fold / rfold / position unwinds through the drain: the removal must
+                // still be exact (every element of the range destroyed once or handed out once, the rest in place)
+                for a in 0..=len {
+                    for b in a..=len {
+                        if b - a < 2 {
+                            continue;
+                        }
+                        for script in [vec![Step::Fold], vec![Step::RFold], vec![Step::Next, Step::RFold], vec![Step::NextBack, Step::Fold], vec![Step::FindMid], vec![Step::RFindMid]] {
+                            v.push(Item { case: Case::simple(n, start, len, vec![Op::Drain(ge::canonical(a, b), script, End::Drop), Op::Views, Op::PushBack]), kinds: vec![FaultKind::Make] });
+                        }
+                    }
+                }
+                v
+            }
             Prop::C10 => plain(ge::c09(n, start, len, End::Forget)),
             Prop::C11 => plain(ge::c11(n, start, len)),
             Prop::C12 => plain(ge::c12(n, start, len)),
@@ -256,7 +271,7 @@ pub fn exec_item(prop: Prop, item: &Item) -> Result<ItemResult, (Case, String)> 
             }
             Ok(ItemResult { runs, digest: d0 })
         }
-        Prop::C05 | Prop::C06 => {
+        _ if matches!(prop, Prop::C05 | Prop::C06) || !item.kinds.is_empty() => {
             // counting run, then one faulted run per user-code event inside the op under test
             let mut c0 = item.case.clone();
             c0.fault = None;
